@@ -26,7 +26,8 @@
 (*    (ValidEq; the identity is excluded by the routine itself).           *)
 (***************************************************************************)
 EXTENDS CurveXB, FiniteSets, TLC
-CONSTANTS p, usq, r, trabs, trneg, xabs, xneg, fam, n2   \* t = -trabs if trneg, x = -xabs if xneg
+CONSTANTS p, usq, r, trabs, trneg, xabs, xneg, fam, n2,  \* t = -trabs if trneg, x = -xabs if xneg
+          CMax                                           \* xi = c + u for c in 0..CMax
 VARIABLES b, c, ph
 
 P == BFromNat(p)
@@ -46,7 +47,7 @@ BOk(bb) == Count1(BFromNat(bb)) = (IF trneg THEN p + 1 + trabs ELSE p + 1 - trab
 
 Init == b = 0 /\ c = 0 /\ ph = 0
 (* two steps (xi, then b) so that TLC's workers share the leaves *)
-Next == \/ ph = 0 /\ (\E cc \in 0..(p - 1) : c' = cc) /\ b' = b /\ ph' = 1
+Next == \/ ph = 0 /\ (\E cc \in 0..CMax : c' = cc) /\ b' = b /\ ph' = 1
         \/ ph = 1 /\ XiOk /\ c' = c /\ (\E bb \in 1..(p - 1) : BOk(bb) /\ b' = bb) /\ ph' = 2
 Spec == Init /\ [][Next]_<<b, c, ph>>
 
